@@ -235,9 +235,14 @@ pub fn record(args: &Args) {
     let modes = ["single", "complete", "average", "union"];
     const INF: i64 = 1 << 30;
     for run in 0..runs {
-        let mode = modes[(run % 4) as usize];
-        let n = rng.range(2, max_n) as usize;
-        let scale: i64 = 1 << n;
+        // every `big_every`-th run clusters 31..100 sets (sizes around 32 / 64 and beyond): single / complete / union only,
+        // the repeated halving of the average linkage would leave the exact integer range
+        let big_every = args.num("big-every", 0);
+        let big = big_every > 0 && run % big_every == big_every - 1;
+        let mode = if big { ["single", "complete", "union"][(run / big_every.max(1) % 3) as usize] } else { modes[(run % 4) as usize] };
+        let big_sizes: &[usize] = if args.num("big-max", 33) > 33 { &[31, 32, 33, 64, 65, 100] } else { &[31, 32, 33] };
+        let n = if big { *rng.pick(big_sizes) } else { rng.range(2, max_n) as usize };
+        let scale: i64 = if big { 1 } else { 1 << n };
         let npairs = n * (n - 1) / 2;
         // inputs: union mode = random non-empty subsets of 2..7 items with weights 2^i (every subset has its own weight);
         // every fifth union run uses disjoint singletons.  arithmetic modes: singletons, free matrix.
@@ -255,7 +260,8 @@ pub fn record(args: &Args) {
                 }
             })
             .collect();
-        let iw: Vec<i64> = (0..n_items).map(|i| 1i64 << i).collect();
+        // weights 2^i give every subset its own weight; beyond 20 items (disjoint singletons only) small distinct weights
+        let iw: Vec<i64> = (0..n_items).map(|i| if n_items > 20 { (i * i + 3 * i + 1) as i64 } else { 1i64 << i }).collect();
         let weight = |v: &[u32]| -> i64 { v.iter().map(|t| iw[*t as usize]).sum() };
         // the initial matrix in the order of Combinations (i < j, lexicographic)
         let style = rng.below(10);
